@@ -51,6 +51,22 @@ where
     }
 }
 
+/// Verification hook (add-only; compiled only with `--cfg chalk_verif`): the entries of the cache.
+#[cfg(chalk_verif)]
+impl<K, V> Cache<K, V>
+where
+    K: Hash + Eq + Debug + Clone,
+    V: Debug + Clone,
+{
+    pub fn verif_entries(&self) -> Vec<(K, V)> {
+        let data = self.data.lock().unwrap();
+        data.cache
+            .iter()
+            .map(|(k, v)| (k.clone(), v.clone()))
+            .collect()
+    }
+}
+
 impl<K, V> Clone for Cache<K, V>
 where
     K: Hash + Eq + Debug,
